@@ -698,7 +698,17 @@ async fn send_body(mut st: SendStream<SegBuf>, m: Msg, key: u32, side: Side, log
             let mut cut_base = 0usize;
             while left > 0 {
                 st.reserve_capacity(left);
-                let got = poll_fn(|cx| st.poll_capacity(cx)).await;
+                // (each wait starts with one poll under another waker — as when the wait is begun in one place and continued
+                // in a task of its own: the waker of the latest poll is the one that counts)
+                let early = {
+                    let w = crate::mockio::noop_waker();
+                    let mut cx0 = std::task::Context::from_waker(&w);
+                    st.poll_capacity(&mut cx0)
+                };
+                let got = match early {
+                    Poll::Ready(x) => x,
+                    Poll::Pending => poll_fn(|cx| st.poll_capacity(cx)).await,
+                };
                 match got {
                     Some(Ok(c)) => {
                         log.push(side, key, Api::Capacity { got: c });
